@@ -45,17 +45,17 @@ Proof.
 Qed.
 
 (* ------------------------------------------------------------------ a main variable with its bounds *)
-Lemma main_var_spec : forall c w0 w ncvar dims extra w2 w3 vdims,
+Lemma main_var_spec : forall c w0 w ncvar dims extra w2 w3 vdims vk,
   Inv0 w -> RoleInv w -> ext w0 w -> ~ In ncvar (used w0) -> In ncvar (w_names w) -> ~ In ncvar (VN w) ->
   nice ncvar -> bnice (c_bounds c) ->
   write_bounds (c_bounds c) dims ncvar w = (extra, w2) ->
   Inv0 w3 -> ext w2 w3 -> w_vars w3 = w_vars w2 ->
-  let mv := {| v_name := ncvar; v_dims := vdims; v_attrs := extra |} in
+  let mv := {| v_name := ncvar; v_dims := vdims; v_attrs := extra; v_kind := vk |} in
   let w4 := add_var mv w3 in
   Inv0 w4 /\ ext w0 w4 /\ cdesc (w_vars w4) c ncvar vdims /\ In mv (w_vars w4) /\
   (forall v, In v (w_vars w4) -> In v (w_vars w) \/ v = mv \/ exists u, In u (w_vars w4) /\ v_attrs u = [("bounds", v_name v)]).
 Proof.
-  intros c w0 w ncvar dims extra w2 w3 vdims HI HR X0 Hf0 Hin Hnv Hn Hb Ewb I3 X23 EV3 mv w4.
+  intros c w0 w ncvar dims extra w2 w3 vdims vk HI HR X0 Hf0 Hin Hnv Hn Hb Ewb I3 X23 EV3 mv w4.
   destruct (write_bounds_spec _ _ _ _ _ _ Ewb HI HR Hb Hn) as [I2 [R2 [X2 [F1 [F2 [F3 [F4 D]]]]]]].
   assert (Hin3 : In ncvar (w_names w3)).
   { apply (ext_names _ _ (ext_trans _ _ _ X2 X23)). exact Hin. }
@@ -77,7 +77,7 @@ Proof.
     + destruct D as [bv [bd [E1 [E2 [E3 [E4 [E5 E6]]]]]]]. exists bv, bd. simpl. splits; try assumption.
       * simpl. rewrite EV3, E2. apply fv_app_some. apply fv_last.
         intro Hx. apply E5. apply used_vn; assumption.
-      * destruct bv as [bn bdims battrs]. simpl in *. subst. apply last_dim_snoc.
+      * destruct bv as [bn bdims battrs bk]. simpl in *. subst. apply last_dim_snoc.
     + apply D.
   - intros v Hv. simpl in Hv. apply in_app_or in Hv as [Hv|[Hv|[]]]; [|right; left; symmetry; exact Hv].
     rewrite EV3 in Hv. destruct (c_bounds c) as [bb|].
@@ -100,7 +100,8 @@ Definition axdesc (f : skel) (w : wstate) (a : nat) : Prop :=
        end
   else
     match find_dimcoord a (f_cons f) with
-    | Some c => exists s, nat_assoc a (w_axscalar w) = Some s /\ cdesc (w_vars w) c s [] /\ ~ In s (DN w)
+    | Some c => exists s, nat_assoc a (w_axscalar w) = Some s /\ cdesc (w_vars w) c s [] /\ ~ In s (DN w) /\
+                          (exists v, fv (w_vars w) s = Some v /\ v_kind v = KNum)
     | None => True
     end.
 
@@ -136,10 +137,11 @@ Proof.
       * intro Hx. apply H4. apply (ext_vn_neg w w'); [exact X| |exact Hx].
         apply used_dn. eapply assoc_in; exact H3.
   - destruct (find_dimcoord a (f_cons f)) as [c|]; [|exact I].
-    destruct H as [s [H1 [H2 H3]]]. exists s. splits; try assumption.
+    destruct H as [s [H1 [H2 [H3 [v [H4 H5]]]]]]. exists s. splits; try assumption.
     + eapply cdesc_ext; eassumption.
     + intro Hx. apply H3. apply (ext_dn_neg w w'); [exact X| |exact Hx].
       apply used_vn; [exact HI|]. eapply cdesc_in_vn; exact H2.
+    + exists v. split; [eapply ext_fv; eassumption|exact H5].
 Qed.
 
 Lemma dimcoord_name_alloc : forall c ncdim w, nice_opt (c_ncvar c) -> nice_opt (c_std c) -> nice_opt ncdim ->
@@ -223,9 +225,9 @@ Proof.
       assert (Hnv2 : ~ In ncvar (VN w2)).
       { unfold VN; simpl. rewrite A3. intro Hx. apply Hf. apply used_vn; assumption. }
       destruct (write_bounds_spec _ _ _ _ _ _ Ewb I2 R2 Hbn Hn) as [I3 [R3 [X3 [F1 [F2 [F3 [F4 _]]]]]]].
-      destruct (main_var_spec c w w2 ncvar [ncvar] extra w3 w3 [ncvar] I2 R2 X2 Hf Hin Hnv2 Hn Hbn Ewb I3 (ext_refl w3) eq_refl)
+      destruct (main_var_spec c w w2 ncvar [ncvar] extra w3 w3 [ncvar] KNum I2 R2 X2 Hf Hin Hnv2 Hn Hbn Ewb I3 (ext_refl w3) eq_refl)
         as [I4 [X4 [D4 [Hmv Hnew]]]].
-      set (mv := {| v_name := ncvar; v_dims := [ncvar]; v_attrs := extra |}) in *.
+      set (mv := {| v_name := ncvar; v_dims := [ncvar]; v_attrs := extra; v_kind := KNum |}) in *.
       set (w4 := add_var mv w3) in *.
       assert (Eax4 : w_axdim w4 = (a, ncvar) :: w_axdim w) by (simpl; rewrite F1; simpl; rewrite A4; reflexivity).
       assert (Esc4 : w_axscalar w4 = w_axscalar w) by (simpl; rewrite F2; simpl; exact A5).
@@ -296,9 +298,9 @@ Proof.
       assert (Hnv1 : ~ In ncvar (VN w1)).
       { rewrite EV. intro Hx. apply Hf. apply used_vn; assumption. }
       destruct (write_bounds_spec _ _ _ _ _ _ Ewb I1 R1 Hbn Hn) as [I2 [R2 [X2 [F1 [F2 [F3 [F4 _]]]]]]].
-      destruct (main_var_spec c w w1 ncvar [] extra w2 w2 [] I1 R1 X1 Hf Hin Hnv1 Hn Hbn Ewb I2 (ext_refl w2) eq_refl)
+      destruct (main_var_spec c w w1 ncvar [] extra w2 w2 [] KNum I1 R1 X1 Hf Hin Hnv1 Hn Hbn Ewb I2 (ext_refl w2) eq_refl)
         as [I4 [X4 [D4 [Hmv Hnew]]]].
-      set (mv := {| v_name := ncvar; v_dims := []; v_attrs := extra |}) in *.
+      set (mv := {| v_name := ncvar; v_dims := []; v_attrs := extra; v_kind := KNum |}) in *.
       set (w4 := add_var mv w2) in *.
       set (w5 := add_coord ncvar (set_axscalar a ncvar w4)).
       assert (S5 : same_core w4 w5) by (unfold same_core; simpl; auto).
@@ -333,7 +335,9 @@ Proof.
         - intros a0 n H0. rewrite Eax5. exact H0. }
       assert (Esn : sn w5 a = ncvar) by (unfold sn; rewrite Esc5, nat_assoc_cons_eq; reflexivity).
       splits; try assumption.
-      * exists ncvar. splits; [rewrite Esc5; apply nat_assoc_cons_eq|exact D4|exact Hndn].
+      * exists ncvar. splits; [rewrite Esc5; apply nat_assoc_cons_eq|exact D4|exact Hndn|].
+        exists mv. split; [|reflexivity]. change (w_vars w5) with (w_vars w4).
+        apply (fv_in_nodup (w_vars w4) mv (i_ndv w4 I4) Hmv).
       * intros a' Hne. rewrite Eax5, Esc5. split; [reflexivity|apply nat_assoc_cons_ne; exact Hne].
       * rewrite Esn. exact Eco5.
   - (* no dimension coordinate *)
